@@ -1016,6 +1016,52 @@ func main() {
 		sum.Dist["site_matrix_expression_row"]++
 		check("site:matrix-expr-row:"+src, "generated matrix with an expression row", src, func(rep int) result { return lintContent("gen.yaml", []byte(src), rep) })
 	}
+	// (K-sort) the comparison of the final sort: sort.Stable(ByErrorPosition) on generated lists of one
+	// file against the stable sort by (line, column) of the model (Out/StableSort.v pos_leb).  Lines and
+	// columns are taken around powers of two and far apart, so that a comparison through a packed or
+	// truncated key shows.
+	{
+		casesSort, err := os.Create(filepath.Join(*out, "cases_sort.txt"))
+		hx.Must(err)
+		defer casesSort.Close()
+		rs := hx.NewRng(*seed + 77)
+		var pool []int
+		for _, sh := range []uint{0, 1, 2, 7, 8, 10, 12, 15, 16, 20, 24, 31, 32, 40} {
+			for _, d := range []int{-1, 0, 1, 15} {
+				if v := (1 << sh) + d; v >= 1 {
+					pool = append(pool, v)
+				}
+			}
+		}
+		for ci := 0; ci < 400; ci++ {
+			n := 2 + rs.Intn(7)
+			base := pool[rs.Intn(len(pool))]
+			var errs []*actionlint.Error
+			var in []string
+			for i := 0; i < n; i++ {
+				var l, c int
+				switch rs.Intn(4) {
+				case 0:
+					l, c = pool[rs.Intn(len(pool))], pool[rs.Intn(len(pool))]
+				case 1: // same line, columns a power of two apart
+					l, c = base, 1+rs.Intn(3)+(1<<uint(rs.Intn(34)))*rs.Intn(3)
+				case 2: // neighbouring lines, any column
+					l, c = base+rs.Intn(2), pool[rs.Intn(len(pool))]
+				default:
+					l, c = 1+rs.Intn(4), 1+rs.Intn(4)
+				}
+				errs = append(errs, &actionlint.Error{Message: strconv.Itoa(i), Filepath: "f.yaml", Line: l, Column: c, Kind: "k"})
+				in = append(in, fmt.Sprintf("(%d, %d, %d)", l, c, i))
+			}
+			sort.Stable(actionlint.ByErrorPosition(errs))
+			var tags []string
+			for _, e := range errs {
+				tags = append(tags, e.Message)
+			}
+			fmt.Fprintf(casesSort, "([%s]%%N, [[%s]]%%N)\n", strings.Join(in, "; "), strings.Join(tags, "; "))
+			sum.Dist["final_sort_lists"]++
+		}
+	}
 	runtime.GOMAXPROCS(runtime.NumCPU())
 	if *ambientBroken {
 		sum.Dist["clock_witness_search"]++
